@@ -103,25 +103,33 @@ static void gen_rc(opcase_t *c, rng_t *r, int maxdim) {
   case RC_COMBINE:
   case RC_COMBINE_EVEN:
   case RC_COMBINE_INPLACE: {
-    int w = (n + 63) / 64;
-    int sb = rng_chance(r, 1, 2) ? 0 : rng_int(r, 0, w - 1);
+    /* c_row[c_sb:] = a_row[a_sb:] + b_row[b_sb:]: the three matrices may start at different words (different
+       16-byte parity of the row pointers) as long as the same number of words remains and the last words match */
+    int wrem = rng_chance(r, 1, 2) ? rng_int(r, 1, 5) : rng_int(r, 1, 14), res = rng_chance(r, 1, 4) ? 64 : rng_int(r, 1, 64);
+    int samesb = rng_chance(r, 1, 3);
+    int a_sb = rng_int(r, 0, 3), b_sb = samesb ? a_sb : rng_int(r, 0, 3), c_sb = samesb ? a_sb : rng_int(r, 0, 3);
     int m2 = gen_dim(r, 20), m3 = gen_dim(r, 20);
-    c->in[1] = gen_mat(r, m2, n, p);
-    c->in[2] = gen_mat(r, m3, n, PAT_DENSE);
+    if (m > 40) m = gen_dim(r, 40);
+    c->in[1] = gen_mat(r, m2, 64 * (a_sb + wrem - 1) + res, p);
+    c->in[2] = gen_mat(r, m3, 64 * (b_sb + wrem - 1) + res, PAT_DENSE);
     c->ip[1] = rng_int(r, 0, m2 - 1);
     c->ip[2] = rng_int(r, 0, m3 - 1);
-    c->ip[3] = sb;
+    c->ip[3] = a_sb;
+    c->ip[4] = b_sb;
     if (v == RC_COMBINE_INPLACE || (v == RC_COMBINE && rng_chance(r, 1, 2))) {
       c->same_as[0] = 1;
       c->ip[0] = c->ip[1];
-      snprintf(c->pcls, sizeof c->pcls, "inplace");
+      c_sb = a_sb;
+      snprintf(c->pcls, sizeof c->pcls, "inplace%s", a_sb == b_sb ? "" : "-sb");
     } else {
-      c->in[0] = gen_mat(r, m, n, PAT_DENSE);
+      c->in[0] = gen_mat(r, m, 64 * (c_sb + wrem - 1) + res, PAT_DENSE);
       c->ip[0] = rng_int(r, 0, m - 1);
-      snprintf(c->pcls, sizeof c->pcls, "threeop");
+      snprintf(c->pcls, sizeof c->pcls, "threeop%s", (a_sb == b_sb && a_sb == c_sb) ? "" : "-sb");
     }
-    snprintf(eb, sizeof eb, "rows=%ld,%ld,%ld startblock=%d width=%d", c->ip[0], c->ip[1], c->ip[2], sb, w);
-    hx_cls("w%d", w - sb > 12 ? 12 : w - sb);
+    c->ip[5] = c_sb;
+    n = 64 * (wrem - 1) + res;
+    snprintf(eb, sizeof eb, "rows=%ld,%ld,%ld startblocks c=%d a=%d b=%d words=%d res=%d", c->ip[0], c->ip[1], c->ip[2], c_sb, a_sb, b_sb, wrem, res);
+    hx_cls("w%d:p%d%d%d", wrem > 12 ? 12 : wrem, c_sb & 1, a_sb & 1, b_sb & 1);
     break;
   }
   case RC_P_LEFT:
@@ -191,9 +199,9 @@ static void run_rc(opcase_t *c) {
     c->iret[1] = mzd_read_bits_int(M, (rci_t)c->ip[0], (rci_t)c->ip[1], (int)(c->ip[2] > 16 ? 16 : c->ip[2]));
     c->niret = 2;
     break;
-  case RC_COMBINE: mzd_combine(M, (rci_t)c->ip[0], c->ip[3], c->o[1]->M, (rci_t)c->ip[1], c->ip[3], c->o[2]->M, (rci_t)c->ip[2], c->ip[3]); break;
-  case RC_COMBINE_EVEN: mzd_combine_even(M, (rci_t)c->ip[0], c->ip[3], c->o[1]->M, (rci_t)c->ip[1], c->ip[3], c->o[2]->M, (rci_t)c->ip[2], c->ip[3]); break;
-  case RC_COMBINE_INPLACE: mzd_combine_even_in_place(M, (rci_t)c->ip[0], c->ip[3], c->o[2]->M, (rci_t)c->ip[2], c->ip[3]); break;
+  case RC_COMBINE: mzd_combine(M, (rci_t)c->ip[0], c->ip[5], c->o[1]->M, (rci_t)c->ip[1], c->ip[3], c->o[2]->M, (rci_t)c->ip[2], c->ip[4]); break;
+  case RC_COMBINE_EVEN: mzd_combine_even(M, (rci_t)c->ip[0], c->ip[5], c->o[1]->M, (rci_t)c->ip[1], c->ip[3], c->o[2]->M, (rci_t)c->ip[2], c->ip[4]); break;
+  case RC_COMBINE_INPLACE: mzd_combine_even_in_place(M, (rci_t)c->ip[0], c->ip[5], c->o[2]->M, (rci_t)c->ip[2], c->ip[4]); break;
   default: {
     mzp_t *P = mk_perm(c);
     switch (v) {
@@ -280,7 +288,8 @@ static void check_rc(opcase_t *c) {
   case RC_COMBINE_EVEN:
   case RC_COMBINE_INPLACE: {
     const rm_t *A = INV(c, 1), *B = INV(c, 2);
-    for (int j = 64 * (int)c->ip[3]; j < n; j++) RM(E, c->ip[0], j) = RM(A, c->ip[1], j) ^ RM(B, c->ip[2], j);
+    int cnt = A->n - 64 * (int)c->ip[3];
+    for (int t = 0; t < cnt; t++) RM(E, c->ip[0], 64 * c->ip[5] + t) = RM(A, c->ip[1], 64 * c->ip[3] + t) ^ RM(B, c->ip[2], 64 * c->ip[4] + t);
     break;
   }
   case RC_P_LEFT: rm_apply_p_rows_asc(E, c->pv[0], c->pvlen[0] < m ? c->pvlen[0] : m); break;
